@@ -38,6 +38,12 @@ def _null_files(tf):
     return out
 
 
+def _bytes_files(tf):
+    """Fourth pair (pickle only): bytes values."""
+    a, b = {"b": b"abc", "l": [b"x"]}, {"b": b"abd", "l": [b"y", b"z"]}
+    return {'pickle': (tf.write(pickle.dumps(a), '.pkl', binary=True), tf.write(pickle.dumps(b), '.pkl', binary=True))}
+
+
 def _rich_files(tf):
     """Second document pair per type: every scalar kind the type can express, empty and nested containers, non-ASCII
     text and - where the type allows them (YAML, pickle) - mapping keys that are not strings."""
@@ -57,15 +63,17 @@ def _rich_files(tf):
     out['html'] = (tf.write('<html><head><title>t</title></head><body><div id="a"><p>x</p>y</div></body></html>', '.html'),
                    tf.write('<html><body><div id="b"><p>x</p><p>z</p></div></body></html>', '.html'))
     out['plist'] = (tf.write(plistlib.dumps(pa), '.plist', binary=True), tf.write(plistlib.dumps(pb), '.plist', binary=True))
-    out['pickle'] = (tf.write(pickle.dumps({**a, **ka, "tup": (1, 2)}), '.pkl', binary=True),
-                     tf.write(pickle.dumps({**b, **kb, "tup": (1,)}), '.pkl', binary=True))
+    out['pickle'] = (tf.write(pickle.dumps({**a, **ka, "tup": (1, 2), "set": {1, 2, "x"}, "fs": frozenset([3]), "nested": [{4, 5}]}),
+                              '.pkl', binary=True),
+                     tf.write(pickle.dumps({**b, **kb, "tup": (1,), "set": {1, 3, "x"}, "fs": frozenset([3]), "nested": [{4, 6}]}),
+                              '.pkl', binary=True))
     return out
 
 
 def _files(tf, variant=0):
     import yaml
     if variant:
-        return _rich_files(tf) if variant == 1 else _null_files(tf)
+        return {1: _rich_files, 2: _null_files, 3: _bytes_files}[variant](tf)
     a, b = {"a": [1, 2, {"b": "x"}], "c": "str"}, {"a": [1, 3, {"b": "y"}], "d": "str"}
     out = {}
     out['json'] = (tf.write(json.dumps(a), '.json'), tf.write(json.dumps(b), '.json'))
@@ -97,6 +105,8 @@ def _job(job):
             cls = f"c13-exception:{type(exc).__name__}:{intype}->{fmt}"
             if fmt == 'plist' and isinstance(exc, TypeError) and "unsupported type: <class 'NoneType'>" in str(exc):
                 cls = 'c13-plist-null'      # plist has no null: plistlib.dumps(None) in PLISTFormatter.write_obj
+            if variant == 3 and isinstance(exc, TypeError) and "object of type 'int' has no len()" in str(exc):
+                cls = 'c13-bytes-diff'      # StringNode.edits on the int elements of a bytes payload
             if 'Parent is already assigned' in str(exc):
                 if "KeyValuePairNode(key=StringNode('tag')" in str(exc) and intype in ('xml', 'html') and fmt not in ('xml', 'html', 'yaml'):
                     cls = 'c13-reparent:xml-element-adapter'
@@ -151,12 +161,13 @@ def bounded(tier, seed, repo_root):
     jobs = [(i, f, m, s, c, d) for i in TYPES for f in TYPES for m in modes for s in styles for c in conds for d in (True, False)]
     rich = [(i, f, m, ['--no-color'], [], d, 1) for i in TYPES for f in TYPES for m in modes for d in (True, False)]
     rich += [(i, f, m, ['--no-color'], [], d, 2) for i in ('json', 'json5', 'yaml', 'pickle') for f in TYPES for m in modes for d in (True, False)]
+    rich += [('pickle', f, m, ['--no-color'], [], d, 3) for f in TYPES for m in modes for d in (True, False)]
     jobs += rich
     fails = [f for fs in pmap(_job, jobs, repo_root, chunksize=8) for f in fs]
     return [{
         'name': 'C13.configuration-matrix', 'bound': f"{len(TYPES)} input types x {len(TYPES)} output formats x 3 modes x 3 styles x 2 "
         f"(condensed) x 2 (equal / different documents) = {len(jobs) - len(rich)} runs of main() on one plain document pair per type, plus {len(rich)} runs (types x formats x modes x equal/different) "
-        f"on a second pair per type with every scalar kind, empty/nested containers, non-ASCII text and non-string mapping keys (YAML, pickle), and a third pair containing null (json, json5, yaml, pickle)",
+        f"on a second pair per type with every scalar kind, empty/nested containers, non-ASCII text and non-string mapping keys (YAML, pickle), a third pair containing null (json, json5, yaml, pickle) and a fourth with bytes values (pickle)",
         'evaluations': len(jobs), 'distinct_nontrivial': len(jobs), 'exhaustive': True,
         'rule': 'configuration -> graphtage.__main__.main completes without an exception other than SystemExit, exit status in {0,1}',
         'failures': fails, 'samples': [list(j) for j in jobs[100:103]],
